@@ -1266,6 +1266,67 @@ func (env *Env) evalCall(x *ECall) (Val, error) {
 			return Val{}, err
 		}
 		return Val{Typ: boolT, Ts: []T{Sel(env.st.alive, v.Ts[0])}}, nil
+	case "visited":
+		// visited(N, k): key k has been produced by the map range of loop N (in the function under verification) so far.
+		// After the loop every key still present in the ranged map has been produced (if the body does not insert).
+		if len(x.Args) != 2 || env.fr == nil {
+			return Val{}, fmt.Errorf("visited(loop, key)")
+		}
+		lit, ok := x.Args[0].(*EInt)
+		if !ok {
+			return Val{}, fmt.Errorf("visited: the loop number must be a literal")
+		}
+		var num int
+		fmt.Sscanf(lit.Text, "%d", &num)
+		var name string
+		var ksort string
+		for hdr, li := range env.fr.loops {
+			if li.num != num {
+				continue
+			}
+			_ = hdr
+			for blk := range li.body {
+				for _, ins := range blk.Instrs {
+					if nx, ok := ins.(*ssa.Next); ok && !nx.IsString {
+						if rg, ok := nx.Iter.(*ssa.Range); ok && name == "" {
+							name = vc.rangeGhost[rg]
+							if mt, ok := rg.X.Type().Underlying().(*types.Map); ok {
+								ksort = vc.mapKeySort(mt)
+							}
+						}
+					}
+				}
+			}
+		}
+		if name == "" {
+			return Val{}, fmt.Errorf("visited(%d, ...): loop %d is not a range over a map with a scalar key", num, num)
+		}
+		kv, err := env.eval(x.Args[1])
+		if err != nil {
+			return Val{}, err
+		}
+		if len(kv.Ts) != 1 {
+			return Val{}, fmt.Errorf("visited: scalar key expected")
+		}
+		kt := kv.Ts[0]
+		if ks := sortOfLeaf(vc, kv, 0); ks != ksort {
+			// untyped constants / other integer widths: coerce through the key sort's width
+			if bvWidth(ks) > 0 && bvWidth(ksort) > 0 && bvWidth(ks) > bvWidth(ksort) {
+				kt = app(fmt.Sprintf("(_ extract %d 0)", bvWidth(ksort)-1), kt)
+			} else if bvWidth(ks) > 0 && bvWidth(ksort) > bvWidth(ks) {
+				kt = app(fmt.Sprintf("(_ zero_extend %d)", bvWidth(ksort)-bvWidth(ks)), kt)
+			}
+		}
+		k64, ok2 := key64(kt, ksort)
+		if !ok2 {
+			return Val{}, fmt.Errorf("visited: unsupported key sort")
+		}
+		g, has := env.st.ghost[name]
+		if !has {
+			// before the range statement was reached: nothing produced yet
+			return Val{Typ: boolT, Ts: []T{False}}, nil
+		}
+		return Val{Typ: boolT, Ts: []T{Sel(g[0], k64)}}, nil
 	case "closed":
 		// closed(ch): the channel has been closed
 		if len(x.Args) != 1 {
@@ -1664,6 +1725,27 @@ func (env *Env) havocLoc(loc Expr, st *State) error {
 	}
 	vc.storeAddr(st, a, vc.freshVal("hv", a.Typ))
 	return nil
+}
+
+func (vc *VC) freshLeavesGhostNamed(hint string, t types.Type) []T {
+	ls := vc.leavesOfGhost(t)
+	out := make([]T, len(ls))
+	for i, l := range ls {
+		out[i] = vc.fresh(hint+l.Path, l.Sort)
+	}
+	return out
+}
+
+// key64 widens a map key (a single bit-vector leaf of at most 64 bits) to the index sort of a ghost key set.
+func key64(k T, sort string) (T, bool) {
+	w := bvWidth(sort)
+	switch {
+	case w == 64:
+		return k, true
+	case w > 0 && w < 64:
+		return app(fmt.Sprintf("(_ zero_extend %d)", 64-w), k), true
+	}
+	return "", false
 }
 
 func (vc *VC) freshLeavesGhost(t types.Type) []T {
